@@ -1401,22 +1401,25 @@ void tNMEA2000::SetHeartbeatIntervalAndOffset(uint32_t interval, uint32_t offset
   if ( interval==0xffffffff && offset==0xffff ) return; // Do not change
   InitDevices();
   for (int i=(iDev<0?0:iDev); i<DeviceCount && (iDev<0?true:i<iDev+1); i++) {
-    if ( interval==0xffffffff ) {
-      interval=Devices[i].HeartbeatScheduler.GetPeriod();
-    } else if (interval==0xfffffffe) { // restore default
-      interval=DefaultHeartbeatInterval;
+    // Resolve special values for each device separately. "Do not change" must keep the value of this device.
+    uint32_t devInterval=interval;
+    uint32_t devOffset=offset;
+    if ( devInterval==0xffffffff ) {
+      devInterval=Devices[i].HeartbeatScheduler.GetPeriod();
+    } else if (devInterval==0xfffffffe) { // restore default
+      devInterval=DefaultHeartbeatInterval;
     }
-    if ( offset==0xffffffff ) offset=Devices[i].HeartbeatScheduler.GetOffset();
+    if ( devOffset==0xffffffff ) devOffset=Devices[i].HeartbeatScheduler.GetOffset();
 
-    if ( interval==0 ) { // This is for test purposes
+    if ( devInterval==0 ) { // This is for test purposes
       Devices[i].HeartbeatScheduler.Disable();
     } else {
-      if ( interval>MaxHeartbeatInterval ) interval=MaxHeartbeatInterval;
-      if ( interval<1000 ) interval=1000;
+      if ( devInterval>MaxHeartbeatInterval ) devInterval=MaxHeartbeatInterval;
+      if ( devInterval<1000 ) devInterval=1000;
 
-      bool changed=( Devices[i].HeartbeatScheduler.GetPeriod()!=interval || Devices[i].HeartbeatScheduler.GetOffset()!=offset ); 
+      bool changed=( Devices[i].HeartbeatScheduler.GetPeriod()!=devInterval || Devices[i].HeartbeatScheduler.GetOffset()!=devOffset ); 
       if ( changed ) {
-        Devices[i].HeartbeatScheduler.SetPeriodAndOffset(interval,offset);
+        Devices[i].HeartbeatScheduler.SetPeriodAndOffset(devInterval,devOffset);
         DeviceInformationChanged=true;
       }
     }
